@@ -1,4 +1,4 @@
-/* C07-corpus: known C07:enum-underlying-type
+/* C07-corpus: pass   (was known C07:enum-underlying-type until /repo c84937eb)
    gcc (and the psABI compilers) make an enumerated type without negative enumerators compatible with
    `unsigned int`, c2mir with `int`; and c2mir reads enum bit-fields narrower than int as unsigned
    even when the enumeration has negative values */
